@@ -24,7 +24,7 @@ from props import _reduce_util as U
 PROP = "C22"
 READY = True
 DRIVER = "dm_reduce"
-LEAN_MODULES = ["DaskModel.Props.C22", "DaskModel.Lemmas.ArrayReduce", "DaskModel.Lemmas.BlockScan", "DaskModel.Lemmas.TopK", "DaskModel.Lemmas.GridReduce", "DaskModel.Lemmas.BlellochAll"]
+LEAN_MODULES = ["DaskModel.Props.C22"]   # the kernel theorems of Lemmas/* are re-exported there (K1_*, K2_*)
 CASE_TIMEOUT_S = 20
 LEVEL_TEXT = (
     "Proved in Lean 4 (no size bound): K1 treeReduce_eq_fold — for every block list, every group size k "
